@@ -106,6 +106,12 @@ asn1constraint_pullup(arg_t *arg) {
 		 */
 		_remove_extensions(arg, ct_parent, 0);
 
+		/*
+		 * Of the constraints applied here only the last one
+		 * may keep its extension marker, parent or not.
+		 */
+		_remove_extensions(arg, ct_expr, 1);
+
 		expr->combined_constraints = ct_parent;
 		if(ct_expr->type == ACT_CA_SET) {
 			unsigned int i;
